@@ -257,6 +257,10 @@ def run(ctx):
             for c in q.calls(cb, b.name):
                 pass
 
+    # ---------------- T3b: the refusing decoders see every chunk of their kind (in every frame)
+    import C01 as _c01
+    _c01.dispatch_always_decodes(ctx, 'T3')
+
     # ---------------- T5 tilesets without embedded pixels
     b = ctx.anchor('asefile::tileset::TilesetsById::validate')
     if b is not None:
